@@ -722,3 +722,73 @@ def fold_constant_branches(fn) -> int:
   if n_fold:
     ast.fix_missing_locations(fn)
   return n_fold
+
+
+def sink_selected_calls(fn) -> int:
+  """`if a: f = g  elif b: f = h  else: f = None` directly followed by
+  `if f is not None: return f(args)` (f used nowhere else): each `f = g`
+  becomes `return g(args)`, `f = None` falls through.  The call happens where
+  it happened, with the same callee and the same arguments."""
+  if not isinstance(fn, (ast.FunctionDef, ast.AsyncFunctionDef)):
+    return 0
+  count = 0
+  for block in _blocks(fn):
+    i = 0
+    while i + 1 < len(block):
+      sel, use = block[i], block[i + 1]
+      i += 1
+      if not (isinstance(sel, ast.If) and isinstance(use, ast.If) and
+              not use.orelse and len(use.body) == 1 and isinstance(
+                  use.body[0], ast.Return) and isinstance(
+                      use.body[0].value, ast.Call) and isinstance(
+                          use.body[0].value.func, ast.Name)):
+        continue
+      f = use.body[0].value.func.id
+      t = use.test
+      if not (isinstance(t, ast.Compare) and len(t.ops) == 1 and isinstance(
+          t.ops[0], ast.IsNot) and isinstance(t.left, ast.Name) and
+              t.left.id == f and isinstance(t.comparators[0], ast.Constant)
+              and t.comparators[0].value is None):
+        continue
+      call = use.body[0].value
+      if any(isinstance(x, ast.Name) and x.id == f
+             for a in list(call.args) + [k.value for k in call.keywords]
+             for x in ast.walk(a)):
+        continue
+      # every leaf of the selecting chain is exactly one `f = <name | None>`
+      leaves = []
+
+      def collect(stmts):
+        if len(stmts) == 1 and isinstance(stmts[0], ast.If):
+          return collect(stmts[0].body) and collect(stmts[0].orelse)
+        if len(stmts) == 1 and isinstance(stmts[0], ast.Assign) and len(
+            stmts[0].targets) == 1 and isinstance(
+                stmts[0].targets[0], ast.Name) and (
+                    stmts[0].targets[0].id == f) and (isinstance(
+                        stmts[0].value, ast.Name) or (isinstance(
+                            stmts[0].value, ast.Constant) and
+                                                      stmts[0].value.value
+                                                      is None)):
+          leaves.append((stmts, stmts[0]))
+          return True
+        return False
+
+      if not (collect(sel.body) and collect(sel.orelse)):
+        continue
+      n_uses = sum(1 for x in _walk_own(fn) if isinstance(x, ast.Name) and
+                   x.id == f)
+      if n_uses != len(leaves) + 2:
+        continue
+      for stmts, a in leaves:
+        if isinstance(a.value, ast.Name):
+          c2 = copy.deepcopy(call)
+          c2.func = ast.copy_location(ast.Name(id=a.value.id, ctx=ast.Load()),
+                                      call.func)
+          stmts[0] = ast.copy_location(ast.Return(value=c2), a)
+        else:
+          stmts[0] = ast.copy_location(ast.Pass(), a)
+      block.remove(use)
+      count += 1
+  if count:
+    ast.fix_missing_locations(fn)
+  return count
